@@ -83,23 +83,71 @@ theorem factorize_ok (S : Graph) (rank : Nat) (res : FResult) (h : factorize S r
   split at h
   · cases h
   rename_i st hrun
-  split at h
-  · cases h
   simp only [Except.ok.injEq] at h
   subst h
   exact ⟨st, hrun, rfl, rfl, rfl, rfl⟩
 
 theorem wfCheck_spec (S : Graph) (rank : Nat) (res : FResult) (h : wfCheck S rank res = true) :
-    Closed S.nodes ∧ arityB S.nodes = true ∧
     (res.argIndices.map fun si => argPos (kindAt S.nodes si)) = List.range res.argIndices.length ∧
     (∀ i (hi : i < S.nodes.size), wfNode res.nodeFacs S.nodes[i] = true) ∧
     (∀ t ∈ S.targets, wfTarget (fun si => res.argIndices.idxOf si) S.nodes rank res.nodeFacs t.1 = true) := by
   unfold wfCheck at h
   simp only [Bool.and_eq_true, decide_eq_true_eq, List.all_eq_true] at h
-  obtain ⟨⟨⟨⟨h1, h2⟩, h3⟩, h4⟩, h5⟩ := h
-  refine ⟨(closedB_iff _).mp h1, h2, h3, ?_, h5⟩
+  obtain ⟨⟨h3, h4⟩, h5⟩ := h
+  refine ⟨h3, ?_, h5⟩
   rw [Array.all_eq_true] at h4
   exact h4
+
+/-- `stepNode` checks the operand order and the operand count of the node -/
+theorem stepNode_ok_checks (avIndex : Nat → Nat) (st : FState) (si : Nat) (n : Node) (st1 : FState)
+    (h : stepNode avIndex st si n = .ok st1) :
+    (n.deps.all fun d => d < si) = true ∧ n.kind.arityOk n.deps.length = true := by
+  unfold stepNode at h
+  simp only at h
+  split at h
+  · cases h
+  rename_i h1
+  split at h
+  · cases h
+  rename_i h2
+  exact ⟨by simpa using h1, by simpa using h2⟩
+
+theorem runNodes_ok_checks (avIndex : Nat → Nat) (fin : FState) :
+    ∀ (rest : List Node) (st : FState) (si : Nat), runNodes avIndex st si rest = .ok fin →
+      ∀ k (hk : k < rest.length), (rest[k].deps.all fun d => d < si + k) = true ∧
+        rest[k].kind.arityOk rest[k].deps.length = true := by
+  intro rest
+  induction rest with
+  | nil => intro st si _ k hk; simp at hk
+  | cons n rest ih =>
+    intro st si h k hk
+    unfold runNodes at h
+    split at h
+    · cases h
+    rename_i st1 hstep
+    cases k with
+    | zero => simpa using stepNode_ok_checks avIndex st si n st1 hstep
+    | succ k =>
+      have := ih st1 (si + 1) h k (by simpa using hk)
+      simp only [List.getElem_cons_succ]
+      have e : si + (k + 1) = si + 1 + k := by omega
+      rw [e]; exact this
+
+/-- **Acceptance implies shape.**  A graph the algorithm accepts is in topological order and every
+node has the operand count of its class. -/
+theorem accepted_closed (S : Array Node) (avIndex : Nat → Nat) (st0 fin : FState)
+    (h : runNodes avIndex st0 0 S.toList = .ok fin) : Closed S ∧ arityB S = true := by
+  have hk := runNodes_ok_checks avIndex fin S.toList st0 0 h
+  constructor
+  · intro i hi d hd
+    have := (hk i (by simpa using hi)).1
+    simp only [Array.getElem_toList, Nat.zero_add, List.all_eq_true, decide_eq_true_eq] at this
+    exact this d hd
+  · unfold arityB
+    rw [Array.all_eq_true]
+    intro i hi
+    have := (hk i (by simpa using hi)).2
+    simpa using this
 
 /-- the invariant holds for the final state of an accepted, well-formed graph -/
 theorem factorize_inv (hρ : LawfulEnv ρ) (hreal : RealArgs ρ) (S : Graph) (rank : Nat) (res : FResult)
@@ -108,7 +156,8 @@ theorem factorize_inv (hρ : LawfulEnv ρ) (hreal : RealArgs ρ) (S : Graph) (ra
     (hF : res.F = st.F) (hfacs : res.nodeFacs = st.facs)
     (hwf : wfCheck S rank res = true) :
     Inv ρ S.nodes st S.nodes.size ∧ Ext (initState S.nodes).F st.F := by
-  obtain ⟨hcS, har, _, hwfall, _⟩ := wfCheck_spec S rank res hwf
+  obtain ⟨_, hwfall, _⟩ := wfCheck_spec S rank res hwf
+  obtain ⟨hcS, har⟩ := accepted_closed S.nodes _ _ st hrun
   rw [hfacs] at hwfall
   obtain ⟨hinv, hx, _, _⟩ := runNodes_inv ρ hρ hreal S.nodes hcS _ st hwfall S.nodes.toList
     (initState S.nodes) 0 (by intro k; simp) (initState_inv ρ hρ S.nodes har) hrun
